@@ -232,3 +232,117 @@ class SubDelete(Obligation):
 def obligations(ctx, cfg):
     n = 2 if cfg['tier'] == 'quick' else 4
     return [TopicHandlers(ctx, n), SubDelete(ctx), TopicDeleteTwice(ctx, n)]
+
+
+# ---------------------------------------------------------------------- history from the real constructor (no field of the actor is named)
+class TopicActorHistory(Obligation):
+    """TopicActor::start run for real; the spawned actor task is fed a fixed sequence of requests through its mailbox and the
+    answers are compared with the obvious reference - independent of how the actor represents its state"""
+    id = 'C11.e-history-topic-actor'
+    tier = 'T3'
+    desc = ('the topic actor as started by TopicActor::start, fed Attach(a), Attach(b), List, Remove(a|b), Attach(c), List, Delete, List through its mailbox: '
+            'each listing is exactly the set of attached subscriptions in creation order; after Delete nothing is listed')
+    bounds = {'history': 'the 8 requests above; which of a / b is removed is a choice', 'subscriptions': 3}
+    unroll = 10
+
+    def __init__(self, ctx):
+        install_tokens(ctx)
+
+    def body(self, ip, p):
+        ctx = ip.ctx
+        from models_async import ReceiverM, OneshotTx, poll_future
+        from props.C16 import default_reply
+        ctx.on_enqueue = default_reply
+        U = ctx.tok_ufs
+        own = sym_name(ctx, p, 'TopicName', 'own_topic')
+        mstate = Cell(mk_opt(ctx, 'State', 'topics/topic_manager', topics=MapM([(z3.BoolVal(True), own, ArcTok(p.fresh('own_topic_tok'), 'Topic'))]),
+                             next_id=S(p.fresh('t_next'), 'u32')), 'tmgr-state')
+        delegate = mk(ctx, 'TopicManagerDelegate', state=ArcCell(Cell(LockM('topic_manager.state', mstate))))
+        info = mk(ctx, 'TopicInfo', name=own)
+        n0 = len(p.log)
+        run_to_end(ip.call_fn(ctx.fn('TopicActor', 'start'), [delegate, info, S(p.fresh('tid'), 'u32')]))
+        spawned = [e for e in p.log[n0:] if e[0] == 'spawn']
+        if len(spawned) != 1:
+            raise Unsupported('TopicActor::start spawned %d tasks' % len(spawned))
+        task = spawned[0][1]
+        # three subscriptions with distinct names, created in the order a, b, c
+        toks = [p.fresh('sub_%s_tok' % x) for x in 'abc']
+        for i in range(3):
+            for j in range(i + 1, 3):
+                p.assume(z3.And(toks[i] != toks[j], z3.Or(U['sub_proj'](toks[i]) != U['sub_proj'](toks[j]), U['sub_id'](toks[i]) != U['sub_id'](toks[j])),
+                                U['sub_iid'](toks[i]) < U['sub_iid'](toks[j])))
+        name_of = lambda t: mk(ctx, 'SubscriptionName', project_id=StrTok(U['sub_proj'](t)), subscription_id=StrTok(U['sub_id'](t)))
+        ev = ctx.src.enum_variants('TopicRequest')
+        idx = {n: i for i, (n, _) in enumerate(ev)}
+        txs = []
+
+        def tx():
+            p.counter += 1
+            t = OneshotTx(p.counter)
+            txs.append(t)
+            return t
+        big = mk(ctx, 'Paging', size=S(z3.IntVal(1000), 'usize'), offset=Enum('Option', 0, {}))
+        rm = p.choose(2, 'which subscription is removed')
+        fields_of = lambda v: ev[idx[v]][1]
+
+        def req(variant, **kw):
+            names = fields_of(variant)
+            return Enum('TopicRequest', idx[variant], {idx[variant]: tuple(kw[n] for n in names)})
+        items = [req('AttachSubscription', subscription=ArcTok(toks[0], 'Subscription'), responder=tx()),
+                 req('AttachSubscription', subscription=ArcTok(toks[1], 'Subscription'), responder=tx()),
+                 req('ListSubscriptions', paging=big, responder=tx()),
+                 req('RemoveSubscription', name=name_of(toks[rm]), responder=tx()),
+                 req('AttachSubscription', subscription=ArcTok(toks[2], 'Subscription'), responder=tx()),
+                 req('ListSubscriptions', paging=big, responder=tx()),
+                 req('Delete', responder=tx()),
+                 req('ListSubscriptions', paging=big, responder=tx())]
+        # hand the actor task its mailbox with the history in it
+        ups = list(task.upvars) if hasattr(task, 'upvars') else None
+        if ups is None:
+            raise Unsupported('spawned task is not a coroutine value')
+        k = [i for i, u in enumerate(ups) if isinstance(u, Opaque) and u.tag == 'mpsc.Receiver']
+        if len(k) != 1:
+            raise Unsupported('the actor task does not own exactly one mailbox')
+        rx = ReceiverM(items)
+        ups[k[0]] = rx
+        cell = Cell(Enum(task.name, task.discr, task.payload, ups), 'actor-task')
+        r = run_to_end(poll_future(ip, Loc(cell)))
+        return {'parked': r.discr == 1, 'left': len(rx.items), 'txs': txs, 'toks': toks, 'rm': rm, 'sent': dict(getattr(p, 'sent', {}))}
+
+    def post(self, ip, p, res):
+        ctx = ip.ctx
+        out = [Claim('the actor handled the whole history and waits for more', res['parked'] and res['left'] == 0)]
+        sent = res['sent']
+        out.append(Claim('every request was answered', all(t.cid in sent for t in res['txs'])))
+        if not all(t.cid in sent for t in res['txs']):
+            return out
+        toks, rm = res['toks'], res['rm']
+
+        def listed(cid):
+            r = sent[cid]
+            if r.discr != 0:
+                return None
+            page = r.payload[0][0]
+            return fld(ctx, page, 'SubscriptionsPage', 'subscriptions')
+        expect = {2: [toks[0], toks[1]], 5: [toks[1 - rm], toks[2]], 7: []}
+        for pos, want in expect.items():
+            seq = listed(res['txs'][pos].cid)
+            out.append(Claim('listing %d succeeds' % pos, seq is not None))
+            if seq is None:
+                continue
+            conj = [seq.n == len(want)]
+            for i, t in enumerate(want):
+                if i < len(seq.elems):
+                    conj.append(z3.Implies(seq.n > i, seq.elems[i].tok == t))
+                else:
+                    conj.append(z3.BoolVal(False))
+            out.append(Claim('request %d lists exactly %s, in creation order' % (pos, ['abc'[toks.index(t)] for t in want]), z3.And(conj)))
+        out.append(Cover('a removed'), ) if rm == 0 else out.append(Cover('b removed'))
+        return out
+
+
+_obligations_c11 = obligations
+
+
+def obligations(ctx, cfg):
+    return _obligations_c11(ctx, cfg) + [TopicActorHistory(ctx)]
